@@ -160,9 +160,7 @@ def cctpDepositForBurn (cfg : Cfg) (c : Ctx) (amount : Int) (domain : Nat) (mint
   if !c.ext.cctpDomain domain then (.err "cctp:no-token-messenger" : Res Unit) else pure ()
   if toLowerStr c.ext.mintingDenom != toLowerStr burnToken then (.err "cctp:denom" : Res Unit) else pure ()
   if c.ext.cctpBurnPaused then (.err "cctp:burn-paused" : Res Unit) else pure ()
-  match c.ext.cctpBurnLimit with
-  | some l => if amount.toNat > l then (.err "cctp:burn-limit" : Res Unit) else pure ()
-  | none => pure ()
+  if (match c.ext.cctpBurnLimit with | some l => decide (amount.toNat > l) | none => false) then (.err "cctp:burn-limit" : Res Unit) else pure ()
   let c ← c.send cfg.orbAddr cfg.cctpModule burnToken amount.toNat "cctp:transfer"
   -- fiat-tokenfactory Burn
   if c.ext.blacklisted cfg.cctpModule then (.err "ftf:minter-blacklisted" : Res Unit) else pure ()
